@@ -36,11 +36,11 @@ def analyse(prop: str, tier: str, root=None):
 def main():
     ap = argparse.ArgumentParser()
     ap.add_argument('prop')
-    ap.add_argument('--tier', default='quick')
+    ap.add_argument('--tier', default=None)
     ap.add_argument('--replay')
     ap.add_argument('--list', action='store_true', help='print all obligations')
     args = ap.parse_args()
-    tier = os.environ.get('VERIF_TIER') or args.tier
+    tier = args.tier or os.environ.get('VERIF_TIER') or 'quick'  # an explicit --tier wins over the environment
     if tier not in ('quick', 'thorough'):
         tier = 'quick'
     prop = args.prop.upper()
